@@ -67,3 +67,30 @@ def expokit_estimate(A, v, m):
     err1 = abs(expd[m, 0])
     err2 = abs(expd[m + 1, 0] * avnorm)
     return err1 if err1 < err2 else err1 * err2 / (err1 - err2)
+
+
+def krylov_approximant(A, v, m):
+    """Expokit's *corrected* order-m Krylov approximation of exp(A)v in (numerically) exact arithmetic: full Arnoldi
+    with re-orthogonalisation, exponential of the augmented (m+2)x(m+2) matrix, first m+1 basis vectors.  What a
+    correct implementation returns when it stops after m operator applications, whatever its stopping rule."""
+    A = np.asarray(A, dtype=complex)
+    v = np.asarray(v, dtype=complex)
+    nrm0 = np.linalg.norm(v)
+    V = [v / nrm0]
+    T = np.zeros((m + 2, m + 2), dtype=complex)
+    for j in range(m):
+        w = A @ V[-1]
+        for _ in range(2):
+            for k in range(j + 1):
+                ov = np.vdot(V[k], w)
+                T[k, j] += ov
+                w = w - ov * V[k]
+        n2 = np.linalg.norm(w)
+        T[j + 1, j] = n2
+        if n2 < 1e-300:
+            e = sla.expm(T[: j + 1, : j + 1])[:, 0]
+            return nrm0 * sum(a * b for a, b in zip(e, V))
+        V.append(w / n2)
+    T[m + 1, m] = 1
+    e = sla.expm(T)[:, 0]
+    return nrm0 * sum(a * b for a, b in zip(e[: m + 1], V))
